@@ -19,6 +19,13 @@
 //! Signature = C14/<where|select-list>/<shape>/<expected>><observed>; the shape names operators and operand
 //! KINDS (col/const/NULL, int/real/text), never literal values.
 //!
+//! Pass L (LIKE sub-space): tables `lk(id INT PRIMARY KEY, s TEXT)` and `lx` (same + index on s) hold every
+//! text of length <= 5 (thorough 6) over {a,b} plus one NULL; every pattern of length <= 4 (thorough 5) over
+//! {a,b,%,_} is evaluated as `s LIKE p` and `s NOT LIKE p` in both forms against the recursive reference
+//! matcher (so suffix / infix patterns meet texts with repeated and overlapping prefixes).
+//! Signature there: C14/<form>/<like|notlike>(text_col|text_ixcol,const:<class>)/<e>><o>, class = the pattern
+//! with every run of literals/`_` written X (`%X` suffix, `X%` prefix, `X%X`, ...).
+//!
 //! Passes: A* = the full grammar; B* = the grammar without the constructs of the recorded findings
 //! (`known_broken`), explored deeper; the per-pass predicate counts are in the counters.
 use checks::sqlh::{self, Res, TestDb};
@@ -1199,7 +1206,7 @@ impl Check for C14 {
         let mut s = Spec::new(
             "C14",
             "exploration",
-            "a case is one (predicate, table, observation form): table = full cross product a{NULL,-1,0,1,2} x b{NULL,-1.5,-1.0,-0.5,0.5,1.0,2.0} x c{NULL,'','a','ab','b'} (175 rows) with id PRIMARY KEY (t), plain id (n), or PRIMARY KEY plus secondary indexes on a and c (x); form = `SELECT id FROM tb WHERE p` (returned id set vs rows where the model says TRUE) or `SELECT id, p FROM tb WHERE 1=1` (TRUE/FALSE/NULL per row). Predicates: every atom of refmodel atoms(schema, consts: ints 0,-1,1,2; floats 0.5,-0.5,-1.5,1.5,1.0) (comparisons col/const/NULL/col-col x 6 operators, IS [NOT] NULL, [NOT] IN with/without NULL, [NOT] BETWEEN with/without NULL bound, [NOT] LIKE) and its NOT, IS [NOT] NULL over every atom, 21 id-column atoms (index-eligible) alone, negated and AND/OR-combined with the core in both operand orders, all NOT/AND/OR trees to the stated depth over the 40-atom core (quick: depth<=1 + one outer NOT; thorough: depth<=1 over all atoms, depth<=2 over the core, time-capped), and the B passes = AND/OR trees over the atoms without the constructs of the recorded findings (quick: depth<=1 over all such atoms on t and x, depth<=2 over a 8-atom mini core on t and x; thorough: depth<=2 over the 25-atom safe core on t and x). Distinct = distinct (predicate, table, form); non-trivial = the model's value is not the same for all 175 rows. Blame is per row: a row counts against p only if every proper boolean sub-expression of p agrees with the model on that row.",
+            "a case is one (predicate, table, observation form): table = full cross product a{NULL,-1,0,1,2} x b{NULL,-1.5,-1.0,-0.5,0.5,1.0,2.0} x c{NULL,'','a','ab','b'} (175 rows) with id PRIMARY KEY (t), plain id (n), or PRIMARY KEY plus secondary indexes on a and c (x); form = `SELECT id FROM tb WHERE p` (returned id set vs rows where the model says TRUE) or `SELECT id, p FROM tb WHERE 1=1` (TRUE/FALSE/NULL per row). Predicates: every atom of refmodel atoms(schema, consts: ints 0,-1,1,2; floats 0.5,-0.5,-1.5,1.5,1.0) (comparisons col/const/NULL/col-col x 6 operators, IS [NOT] NULL, [NOT] IN with/without NULL, [NOT] BETWEEN with/without NULL bound, [NOT] LIKE) and its NOT, IS [NOT] NULL over every atom, 21 id-column atoms (index-eligible) alone, negated and AND/OR-combined with the core in both operand orders, all NOT/AND/OR trees to the stated depth over the 40-atom core (quick: depth<=1 + one outer NOT; thorough: depth<=1 over all atoms, depth<=2 over the core, time-capped), and the B passes = AND/OR trees over the atoms without the constructs of the recorded findings (quick: depth<=1 over all such atoms on t and x, depth<=2 over a 8-atom mini core on t and x; thorough: depth<=2 over the 25-atom safe core on t and x). Pass L (LIKE sub-space): tables lk(id PK, s TEXT) and lx (+ index on s) with every text of length <=5 (thorough 6) over {a,b} + one NULL row x every pattern of length <=4 (thorough 5) over {a,b,%,_} x {LIKE, NOT LIKE} x both forms, compared per row with the recursive reference matcher like_match. Distinct = distinct (predicate, table, form); non-trivial = the model's value is not the same for all 175 rows. Blame is per row: a row counts against p only if every proper boolean sub-expression of p agrees with the model on that row.",
         );
         s.assumptions = &[
             "oracle = refmodel::sql::expr::Expr::eval_truth (Kleene logic, cross-checked against SQLite); rows on which the model raises Overflow/DivZero/Type are skipped and counted",
